@@ -375,6 +375,12 @@ def _float_to_fixed_sites(F, b):
             for a in t[2]:
                 visit(a, True)
             return
+        if t[0] == 'call' and str(t[1]).endswith(('Ord::max', 'cmp::max')) and len(t[2]) == 2:
+            # a lower clamp (`max` with the previous entry) passes its operand on: what bounds the result from above
+            # bounds the operand's contribution too
+            for a in t[2]:
+                visit(a, under_min)
+            return
         for c in t[1:]:
             if isinstance(c, tuple):
                 if c and isinstance(c[0], str):
@@ -384,6 +390,13 @@ def _float_to_fixed_sites(F, b):
                         if isinstance(d, tuple):
                             visit(d, False)
     is_cast = lambda t: isinstance(t, tuple) and len(t) >= 5 and t[0] == 'cast' and t[1] == 'as_' and t[4] in ('F', 'f32', 'f64') and sym.contains(t[2], lambda x: isinstance(x, tuple) and x and x[0] == 'bin' and x[1].split('.')[0] == 'Mul')
+    def lifted(t):
+        """the conversions whose upper bound a bound on t implies: t itself, or the operands of a lower clamp `max(conversion, x)`"""
+        if is_cast(t):
+            return [t]
+        if isinstance(t, tuple) and t and t[0] == 'call' and str(t[1]).endswith(('Ord::max', 'cmp::max')) and len(t[2]) == 2:
+            return [x for a in t[2] for x in lifted(a)]
+        return []
     for r in paths or []:
         # the clamp written as a branch: on this path the conversion is decided to lie below an integer bound
         guarded = set()
@@ -391,18 +404,19 @@ def _float_to_fixed_sites(F, b):
         for t, v in preds:
             if t[0] == 'bin' and t[1] in ('Lt', 'Le', 'Gt', 'Ge'):
                 a, c = t[2], t[3]
-                if is_cast(a) and not is_cast(c) and ((t[1] in ('Lt', 'Le')) == bool(v)):
-                    guarded.add(repr(effects.strip_uid(a)))
-                if is_cast(c) and not is_cast(a) and ((t[1] in ('Gt', 'Ge')) == bool(v)):
-                    guarded.add(repr(effects.strip_uid(c)))
+                ca, cc = lifted(a), lifted(c)
+                if ca and not cc and ((t[1] in ('Lt', 'Le')) == bool(v)):
+                    guarded.update(repr(effects.strip_uid(x)) for x in ca)
+                if cc and not ca and ((t[1] in ('Gt', 'Ge')) == bool(v)):
+                    guarded.update(repr(effects.strip_uid(x)) for x in cc)
         # where the value ends up: the result, stores, decisions, and what is handed to other functions (the clamp itself excepted)
         terms = ([r.ret] if r.ret is not None else []) + [e['value'] for e in r.events if e['kind'] in ('write', 'write_ref')]
         for t, v in preds:
-            if t[0] == 'bin' and t[1] in ('Lt', 'Le', 'Gt', 'Ge') and (is_cast(t[2]) or is_cast(t[3])):
+            if t[0] == 'bin' and t[1] in ('Lt', 'Le', 'Gt', 'Ge') and (lifted(t[2]) or lifted(t[3])):
                 continue          # the comparison that clamps (or fails to): judged through `guarded`
             terms.append(t)
         for e in r.events:
-            if e['kind'] == 'call' and not str(e['callee']).endswith(('Ord::min', 'cmp::min', 'AsPrimitive::as_', 'ops::Mul::mul', 'PartialOrd::lt', 'PartialOrd::le', 'PartialOrd::gt', 'PartialOrd::ge')):
+            if e['kind'] == 'call' and not str(e['callee']).endswith(('Ord::min', 'cmp::min', 'Ord::max', 'cmp::max', 'Ord::clamp', 'AsPrimitive::as_', 'ops::Mul::mul', 'PartialOrd::lt', 'PartialOrd::le', 'PartialOrd::gt', 'PartialOrd::ge')):
                 terms += list(e.get('args_val', e['args']))
         n0 = len(out)
         for t in terms:
@@ -465,6 +479,110 @@ def check_scaled_cumulative_clamped(ctx, F):
                 ctx.bad('R10', role, b.defpath, '`%s` goes into the cumulative as it comes out of the float arithmetic (a bound applied in floating point does not help: the float image of the free weight is itself rounded): rounding (of the scale, of the product, of a free weight that f32 cannot represent for PRECISION > 24) can lift it past the free weight, so trailing symbols get probability zero or the cdf passes 1 << PRECISION' % txt, key=key, loc=rules.loc(b))
     ctx.extra['float_to_fixed_conversions'] = n
     ctx.floor('R10', 'floor: float-to-fixed conversions of cumulatives', 'stream::model::categorical', n, 2, 'only %d conversions `as_(prefix_sum * scale)` found in the fast quantiser and the lazy model' % n, key='R10/floor/scaled-cumulative')
+
+
+def check_float_table_monotone(ctx, F):
+    """The consumers of the fast quantiser (the contiguous, non-contiguous-decoder and contiguous-lookup `_fast` constructors)
+    store its table without validation and later read it with get_unchecked / into_nonzero_unchecked.  The float type `F` is
+    a type parameter bounded by safe traits only, so what the unchecked code needs - the table starts at zero and strictly
+    increases - may not rest on `F`'s arithmetic: a float-to-fixed conversion enters the table only through a *lower* clamp
+    against the running integer value (`max(converted, running)` or the branch form), that running value is what the clamp
+    is stored back into, and the entry handed out is built from integer state that starts at zero."""
+    ff = anchors.validators(F).get('float_fast')
+    if ff is None:
+        return
+    is_cast = lambda t: isinstance(t, tuple) and len(t) >= 5 and t[0] == 'cast' and t[1] == 'as_' and t[4] in ('F', 'f32', 'f64')
+    is_state = lambda t: isinstance(t, tuple) and len(t) == 2 and t[0] == 'in' and isinstance(t[1], tuple) and len(t[1]) >= 3 and t[1][0] == 1 and isinstance(t[1][2], tuple) and t[1][2][0] == 'f'
+    caps = {}
+    try:
+        _, pp = rules.evaluate(ff)
+    except sym.TooManyPaths:
+        pp = []
+    for r in pp or []:
+        for t in ([r.ret] if r.ret is not None else []):
+            for x in sym.subterms(t):
+                if isinstance(x, tuple) and x and x[0] == 'agg' and isinstance(x[1], tuple) and x[1][0] == 'closure':
+                    caps[x[1][1]] = x[2]
+    n = 0
+    for b in F.closures_of(ff):
+        try:
+            _, paths = rules.evaluate(b)
+        except sym.TooManyPaths:
+            continue
+        if not any(sym.contains(t, is_cast) for r in paths or [] for t in ([r.ret] if r.ret is not None else []) + [e['value'] for e in r.events if e['kind'] == 'write']):
+            continue
+        ctx.touch(b)
+        n += 1
+        key = 'R10/float-table-monotone/' + b.defpath
+        role = 'a table that unchecked code reads is monotone by integer arithmetic, not by the float type\'s'
+        bad = None
+        unres = None
+        for r in paths or []:
+            if r.end != 'return':
+                continue
+            preds = [(rules.inline_pure(F, t), v) for t, v, _ in r.preds]
+            above = set()      # (cast, state field) pairs decided cast >= field on this path
+            for t, v in preds:
+                if t[0] == 'bin' and t[1] in ('Lt', 'Le', 'Gt', 'Ge'):
+                    a, c = t[2], t[3]
+                    if is_cast(a) and is_state(c) and ((t[1] in ('Gt', 'Ge')) == bool(v)):
+                        above.add((repr(effects.strip_uid(a)), c[1]))
+                    if is_cast(c) and is_state(a) and ((t[1] in ('Lt', 'Le')) == bool(v)):
+                        above.add((repr(effects.strip_uid(c)), a[1]))
+            writes = {e['path']: rules.inline_pure(F, e['value']) for e in r.events if e['kind'] == 'write' and isinstance(e.get('path'), tuple)}
+            sinks = [('the entry handed out', rules.inline_pure(F, r.ret))] if r.ret is not None else []
+            sinks += [('the running value', v) for pth, v in writes.items()]
+
+            def visit(t, lower):
+                """lower = the state field this subterm is already clamped against from below (or None)"""
+                nonlocal bad
+                if not isinstance(t, tuple) or not t:
+                    return
+                if is_cast(t):
+                    k = repr(effects.strip_uid(t))
+                    fld = lower if lower is not None else next((f for c, f in above if c == k), None)
+                    if fld is None:
+                        bad = bad or ('`%s` enters the table without a lower clamp against the running value' % sym.show(t)[:70])
+                    elif fld not in writes or not sym.contains(writes[fld], lambda y: y == t):
+                        bad = bad or ('`%s` is clamped against a value that is not where the clamped result is kept' % sym.show(t)[:70])
+                    return
+                if t[0] == 'call' and str(t[1]).endswith(('Ord::max', 'cmp::max')) and len(t[2]) == 2:
+                    st = [a for a in t[2] if is_state(a)]
+                    for a in t[2]:
+                        visit(a, st[0][1] if (len(st) == 1 and a is not st[0]) else lower)
+                    return
+                if t[0] == 'call' and str(t[1]).endswith(('Ord::min', 'cmp::min')) and len(t[2]) == 2:
+                    for a in t[2]:
+                        visit(a, lower)
+                    return
+                for c in t[1:]:
+                    if isinstance(c, tuple):
+                        if c and isinstance(c[0], str):
+                            visit(c, None)
+                        else:
+                            for d in c:
+                                if isinstance(d, tuple):
+                                    visit(d, None)
+            for what, t in sinks:
+                if sym.contains(t, is_cast):
+                    if what == 'the entry handed out':
+                        unres = unres or 'the entry handed out contains a float conversion itself: whether the first entry is zero is not decided here'
+                    visit(t, None)
+            # the first entry: built from state only, and that state starts at zero
+            if r.ret is not None and not sym.contains(r.ret, is_cast):
+                cp = caps.get(b.defpath)
+                for x in sym.subterms(rules.inline_pure(F, r.ret)):
+                    if is_state(x):
+                        k = int(x[1][2][1])
+                        if cp is None or k >= len(cp) or not (isinstance(cp[k], tuple) and cp[k][:2] == ('k', 'zero')):
+                            unres = unres or 'the state the first entry is built from is not initialised with a literal zero'
+        if bad:
+            ctx.bad('R10', role, b.defpath, bad + ': the table of the `_fast` constructors is then only as monotone as the arithmetic of the float type parameter `F` (a safe trait a caller can implement), while its consumers index with it unchecked and wrap the differences into NonZero without a test', key=key, loc=rules.loc(b))
+        elif unres:
+            ctx.unresolved('R10', role, b.defpath, unres, key=key)
+        else:
+            ctx.ok('R10', role, b.defpath, 'every float-to-fixed conversion is clamped from below against the running integer value it is stored back into; the entries are sums of integer state that starts at zero', key=key)
+    ctx.floor('R10', 'floor: the fast quantiser converts floats to table entries', 'stream::model::categorical', n, 1, 'no closure of the fast quantiser with a float-to-fixed conversion was found', key='R10/floor/float-table-monotone')
 
 
 def check_supplied_normalization(ctx, F, b, role_name):
